@@ -240,8 +240,18 @@ def run_check(modname, tier, seed, jobs=None):
         results = [_worker(w) for w in work]
     else:
         ctx = multiprocessing.get_context("fork")
+        limit = int(os.environ.get("VERIF_SHARD_TIMEOUT", "1500" if tier == "quick" else "14400"))
         with ctx.Pool(min(jobs, len(work)), maxtasksperchild=1) as pool:
-            results = pool.map(_worker, work, chunksize=1)
+            asyncs = [pool.apply_async(_worker, (w,)) for w in work]
+            results = []
+            deadline = time.time() + limit
+            for w, a in zip(work, asyncs):
+                try:
+                    results.append(a.get(max(1.0, deadline - time.time())))
+                except multiprocessing.TimeoutError:
+                    # a shard that does not come back is a harness problem (never a verdict)
+                    results.append({"spec": w[1], "harness_error": "shard exceeded the %d s wall-clock guard" % limit, "wall_s": limit})
+            pool.terminate()
 
     evaluations = 0
     nontrivial = set()
